@@ -255,3 +255,23 @@ def spec_modal_axes(cfg, modal_shape):
         mrow[a] = ((a + 1) // 2) * (1 if a % 2 == 1 else -1)
   lcol = np.where(np.arange(modal_shape[1]) < L, np.arange(modal_shape[1]), 0)
   return mrow, lcol
+
+
+def exercise(grid):
+  """Use a grid object the way set-up code does BEFORE the clauses run on it: every public operation once, with non-default option values
+  (clip counts 2 and 3, clip=False, float32 and float64 data, leading axes).  Results are discarded; anything the object caches as a side effect of
+  these calls must not influence later calls with other arguments."""
+  import jax.numpy as jnp
+  from dinosaur import spherical_harmonic as sh
+  ms, ns = grid.modal_shape, grid.nodal_shape
+  for dt in (np.float64, np.float32):
+    z = jnp.ones((2,) + ms, dt); zn = jnp.ones((2,) + ns, dt)
+    grid.clip_wavenumbers(z, n=3); grid.clip_wavenumbers(z[0], n=2)
+    grid.to_nodal(z); grid.to_modal(zn); grid.integrate(zn)
+    grid.laplacian(z); grid.inverse_laplacian(z); grid.d_dlon(z); grid.cos_lat_d_dlat(z); grid.sec_lat_d_dlat_cos2(z)
+    grid.cos_lat_grad(z, clip=False); grid.div_cos_lat((z, z), clip=False); grid.curl_cos_lat((z, z), clip=False)
+    try:
+      sh.get_cos_lat_vector(z, z, grid, clip=False)
+    except Exception:  # noqa: BLE001  (pole grids: known finding F9)
+      pass
+  return grid
